@@ -290,69 +290,106 @@ def _r2(chk, repo):
 
 # ------------------------------------------------------------------------------------------------ R3
 def _r3(chk, repo):
+    """Decided on the canonical views of JointDistribution._condition (sa/canon.py); two spellings of "every factor of the result is a
+    conditioned copy" are recognised: (A) copy the list, replace every element by index; (B) build the new list from conditioned copies."""
+    from .common import stmts, canon_fn, pmatch
+    from ..pattern import unify, find, norm as pn
     J = repo.cls("cuqi/distribution/_joint_distribution.py:JointDistribution")
     cond = repo.method(J, "_condition")[1]
     inst = f"{J.qual}._condition"
-    body = cond.body
-    problems = []
-    # new_joint = copy(self)
-    cp = [s for s in body if isinstance(s, ast.Assign) and shallow_copy_source(s.value) is not None and path_of(shallow_copy_source(s.value)) == "self"]
-    if len(cp) != 1:
+    S = stmts(repo, J, cond)
+    b0, _ = unify(["$nj=copy(self)"], S)
+    if b0 is None:
+        b0, _ = unify(["$nj=copy.copy(self)"], S)
+    if b0 is None:
         raise AnchorError(f"{inst}: expected `new = copy(self)`")
-    nj = path_of(cp[0].targets[0])
-    lst = [s for s in body if isinstance(s, ast.Assign) and path_of(s.targets[0]) == f"{nj}._densities"]
-    ok_copy = len(lst) == 1 and unparse(lst[0].value) in ("self._densities[:]", "list(self._densities)", "self._densities.copy()", "copy(self._densities)")
-    chk.add("C11-R3", inst + "/list-copy", ok_copy, site(repo, lst[0] if lst else cond), f"{nj}._densities is rebound to a copy of the list",
-            f"the factor list of the shallow copy is not rebound to a fresh list before the element stores", lst[0] if lst else cond)
-    loops = [s for s in body if isinstance(s, ast.For)]
-    if len(loops) != 1:
-        raise AnchorError(f"{inst}: expected one replacement loop")
-    loop = loops[0]
-    ok_iter = unparse(loop.iter) == f"enumerate({nj}._densities)" and isinstance(loop.target, ast.Tuple)
-    i_var = unparse(loop.target.elts[0]) if ok_iter else "?"
-    d_var = unparse(loop.target.elts[1]) if ok_iter else "?"
-    stores = [s for s in loop.body if isinstance(s, ast.Assign) and isinstance(s.targets[0], ast.Subscript)
-              and path_of(s.targets[0].value) == f"{nj}._densities" and unparse(s.targets[0].slice) == i_var]
-    nested = [s for s in ast.walk(loop) if isinstance(s, ast.Assign) and isinstance(s.targets[0], ast.Subscript)
-              and path_of(s.targets[0].value) == f"{nj}._densities"]
-    ok_store = ok_iter and len(stores) == 1 and len(nested) == 1 and isinstance(stores[0].value, ast.Call) \
-        and path_of(stores[0].value.func) == d_var
-    # nothing may leave the loop body early
-    early = [s for s in ast.walk(loop) if isinstance(s, (ast.Continue, ast.Break))]
-    chk.add("C11-R3", inst + "/replace-all", ok_store and not early, site(repo, loop),
-            f"every factor is replaced by `{d_var}(**kwargs)` (a conditioned copy) unconditionally",
-            "a factor can stay the caller's original object: the element store is conditional, missing, or not the result of "
-            "conditioning the factor — _add_constants_to_density would then write into the original", loop)
-    # the reduce happens after the loop, on the copy
-    rets = [s for s in body if isinstance(s, ast.Return)]
-    ok_ret = len(rets) == 1 and unparse(rets[0].value) == f"{nj}._reduce_to_single_density()" and body.index(rets[0]) > body.index(loop) \
-        and (not lst or body.index(lst[0]) < body.index(loop))
-    chk.add("C11-R3", inst + "/order", ok_ret, site(repo, rets[0] if rets else cond), "copy -> replace -> reduce, in this order",
-            "reduction is not applied to the copy after the replacement loop", cond)
+    nj = b0["nj"]
+    SEL = "{_k0:_k1 for _k0,_k1 in kwargs.items() if _k0 in $d.get_parameter_names()}"
+    # ---- form B: the new list is built from conditioned copies
+    formB = None
+    for pat in (["$nj._densities=[_k0(**$any) for _k0 in self._densities]"], ["$lst=[_k0(**$any) for _k0 in self._densities]", "$nj._densities=$lst"]):
+        formB = None
+        for t, n in S:
+            if t.startswith(f"{nj}._densities=[_k0(**") and t.endswith("for _k0 in self._densities]"):
+                formB = n
+        if formB is None:
+            for t, n in S:
+                m = pmatch("$lst=[_k0(**", t[:t.find("**") + 2]) if "=[_k0(**" in t else None
+                if m and t.endswith("for _k0 in self._densities]") and any(t2 == f"{nj}._densities={m['lst']}" for t2, _ in S):
+                    formB = n
+        break
+    if formB is not None:
+        chk.ok("C11-R3", inst + "/list-copy", site(repo, cond), f"{nj}._densities is bound to a newly built list")
+        chk.ok("C11-R3", inst + "/replace-all", site(repo, cond), "every element of the new list is `factor(**kwargs)` (a conditioned copy) of the corresponding factor")
+        order_ok = True
+    else:
+        # ---- form A
+        lst = [(t, n) for t, n in S if t.startswith(f"{nj}._densities=") and not t.startswith(f"{nj}._densities[")]
+        ok_copy = len(lst) >= 1 and all(t.split("=", 1)[1] in ("self._densities[:]", "list(self._densities)", "self._densities.copy()", "copy(self._densities)") for t, _ in lst)
+        chk.decide("C11-R3", inst + "/list-copy", ok_copy, bool(lst) or True, site(repo, lst[0][1] if lst else cond), f"{nj}._densities is rebound to a copy of the list",
+                   "the factor list of the shallow copy is not rebound to a fresh list before the element stores", lst[0][1] if lst else cond)
+        bl, _ = unify([f"for: ($i,$d) : enumerate({nj}._densities)"], S)
+        stores = [(t, n) for t, n in S if t.startswith(f"{nj}._densities[")]
+        rec = bl is not None or bool(stores)
+        ok_store = False
+        early = False
+        if bl is not None:
+            good = [n for t, n in stores if pmatch(f"{nj}._densities[$i]=$d(**$kw)", n, bl) is not None or t.startswith(f"{nj}._densities[{bl['i']}]={bl['d']}(**")]
+            # unconditional: the store is a direct child of the loop body, and nothing leaves the body early
+            direct = [n for n in good if isinstance(getattr(n, "_parent", None), ast.For)]
+            loops = {id(getattr(n, "_parent", None)): getattr(n, "_parent", None) for n in direct}
+            early = any(isinstance(x, (ast.Continue, ast.Break)) for lp in loops.values() for x in ast.walk(lp))
+            ok_store = bool(direct) and len({t for t, _ in stores}) <= 2
+        chk.decide("C11-R3", inst + "/replace-all", ok_store and not early, rec, site(repo, cond),
+                   "every factor is replaced by `factor(**kwargs)` (a conditioned copy) unconditionally",
+                   "a factor can stay the caller's original object: the element store is conditional, missing, or not the result of "
+                   "conditioning the factor — _add_constants_to_density would then write into the original", cond)
+        order_ok = True
+    # the reduce happens on the copy, after the replacement (decided on the structural view: statement order of the top-level body)
+    v = canon_fn(repo, J, cond, 4)
+    body = v.body
+    rets = [s_ for s_ in body if isinstance(s_, ast.Return)]
+    idx_ret = body.index(rets[0]) if len(rets) == 1 else -1
+    idx_fill = max([i for i, s_ in enumerate(body) if any(isinstance(x, (ast.Attribute,)) and x.attr == "_densities" and isinstance(getattr(x, "ctx", None), ast.Store)
+                                                          or (isinstance(x, ast.Subscript) and isinstance(x.ctx, ast.Store) and path_of(x.value) == f"{nj}._densities")
+                                                          for x in ast.walk(s_))] or [-1])
+    ok_ret = len(rets) == 1 and pn(rets[0].value) == f"{nj}._reduce_to_single_density()" and idx_fill != -1 and idx_fill < idx_ret
+    chk.decide("C11-R3", inst + "/order", ok_ret, len(rets) >= 1, site(repo, rets[0] if rets else cond), "copy -> replace -> reduce, in this order",
+               "reduction is not applied to the copy after the replacement", cond)
     # callers of _reduce_to_single_density and of _add_constants_to_density
-    callers_r, callers_a = [], []
+    callers_r = []
     for m in repo.modules.values():
         for n in ast.walk(m.tree):
-            if isinstance(n, ast.Call) and isinstance(n.func, ast.Attribute):
-                if n.func.attr == "_reduce_to_single_density":
-                    callers_r.append((m, n))
-                if n.func.attr == "_add_constants_to_density":
-                    callers_a.append((m, n))
+            if isinstance(n, ast.Call) and isinstance(n.func, ast.Attribute) and n.func.attr == "_reduce_to_single_density":
+                callers_r.append((m, n))
     bad = [f"{m.rel}:{n.lineno}" for m, n in callers_r if not (m.rel == J.module.rel and path_of(n.func.value) == nj)]
     chk.add("C11-R3", f"{J.qual}._reduce_to_single_density/callers", not bad, "", f"{len(callers_r)} caller(s), all on the fresh copy in _condition",
             f"_reduce_to_single_density is called on an object that is not the fresh copy: {bad}")
-    bad = []
-    for m, n in callers_a:
-        arg = n.args[0] if n.args else None
-        txt = unparse(arg) if arg is not None else ""
-        fresh_ctor = isinstance(arg, ast.Call) and isinstance(repo.resolve_expr(m, arg.func), ClassInfo)
-        elem = txt in ("self._distributions[0]",)
-        from ..index import enclosing_function
-        ef = enclosing_function(n)
-        if not (path_of(n.func.value) == "self" and ef is not None and ef.name == "_reduce_to_single_density" and (fresh_ctor or elem)):
-            bad.append(f"{m.rel}:{n.lineno} `{txt}`")
-    chk.add("C11-R3", f"{J.qual}._add_constants_to_density/callers", not bad and len(callers_a) >= 2, "",
-            f"{len(callers_a)} call sites: argument is a newly constructed density or an element of the replaced factor list",
+    # arguments of _add_constants_to_density, read on the substituted view of each calling function (temporaries resolved)
+    bad, ncalls = [], 0
+    from ..index import enclosing_function
+    seen_fns = {}
+    for m in repo.modules.values():
+        for n in ast.walk(m.tree):
+            if isinstance(n, ast.Call) and isinstance(n.func, ast.Attribute) and n.func.attr == "_add_constants_to_density":
+                ef = enclosing_function(n)
+                seen_fns[id(ef)] = (m, ef)
+    for m, ef in seen_fns.values():
+        if ef is None or m.rel != J.module.rel or ef.name != "_reduce_to_single_density":
+            bad.append(f"{m.rel}:{getattr(ef, 'lineno', 0)} called outside _reduce_to_single_density")
+            continue
+        v = canon_fn(repo, J, ef, 4)
+        for n in ast.walk(v):
+            if isinstance(n, ast.Call) and isinstance(n.func, ast.Attribute) and n.func.attr == "_add_constants_to_density":
+                ncalls += 1
+                arg = n.args[0] if n.args else None
+                txt = pn(arg) if arg is not None else ""
+                fresh_ctor = isinstance(arg, ast.Call) and isinstance(repo.resolve_expr(m, arg.func), ClassInfo)
+                elem = txt in ("self._distributions[0]",)
+                if not (path_of(n.func.value) == "self" and (fresh_ctor or elem)):
+                    bad.append(f"{m.rel}:{n.lineno} `{txt}`")
+    chk.add("C11-R3", f"{J.qual}._add_constants_to_density/callers", not bad and ncalls >= 2, "",
+            f"{ncalls} call sites: argument is a newly constructed density or an element of the replaced factor list",
             f"_add_constants_to_density (writes to its argument) receives a possibly shared object: {bad}")
     # the write itself is a rebind, not an in-place add (an ndarray constant is shared between copies)
     addc = repo.method(J, "_add_constants_to_density")[1]
